@@ -89,7 +89,7 @@ def run(ctx, rep):
         v = FL.peel(srcf[0]["e"]) if srcf else None
         how = None
         if v is not None:
-            if v.get("k") == "Var" and any(prm.get("pat") and prm["pat"].get("name") == v["name"] for prm in bb["params"]):
+            if v.get("k") == "Var" and any(prm.get("pat") and prm["pat"].get("k") == "Bind" and prm["pat"].get("id") == v["id"] for prm in bb["params"]):
                 how = "the constructor argument itself"
             elif F.is_call(v, "std::ops::Index::index") and FL.peel(v["args"][0]).get("k") == "Field" and FL.peel(v["args"][0])["name"] == "source" \
                     and FL.peel(v["args"][1]).get("k") == "Var":
